@@ -5,6 +5,7 @@ package counter
 import (
 	"encoding/binary"
 	"fmt"
+	"io"
 	"os"
 	"path/filepath"
 	"strings"
@@ -481,7 +482,26 @@ func c05Corrupt(t *testing.T) {
 				}
 			}
 			// bystanders that were readable in the damaged image still show their value
-			if final, err := os.ReadFile(damagedPath); err == nil && len(damaged) > 0 && len(final) >= len(damaged) {
+			// (a damaged limit can make the library extend the file by gigabytes of
+			// holes: read only as far as the image reached, where the bystanders are)
+			var final []byte
+			if fh, err := os.Open(damagedPath); err == nil && len(damaged) > 0 {
+				// (records the host added may head the bystanders' chains from later
+				// pages: read as far as a healthy run can get, not the holes beyond)
+				const cap = 4 << 20
+				if fi, err := fh.Stat(); err == nil && fi.Size() >= int64(len(damaged)) {
+					n := fi.Size()
+					if n > cap {
+						n = cap
+					}
+					final = make([]byte, n)
+					if _, err := io.ReadFull(fh, final); err != nil {
+						final = nil
+					}
+				}
+				fh.Close()
+			}
+			if final != nil {
 				for k := 0; k < 3; k++ {
 					nm := fmt.Sprintf("verif/bystander/%d", k)
 					off := verifref.FindRecord(damaged, nm)
